@@ -214,8 +214,16 @@ func (am *Machine) encryptDataForParticipant(dkgIdentifier, to string, data []by
 }
 
 // decryptDataFromParticipant decrypts the data that was sent to us
-func (am *Machine) decryptDataFromParticipant(data []byte) ([]byte, error) {
-	decryptedData, err := ecies.Decrypt(am.baseSuite, am.secKey, data, am.baseSuite.Hash)
+func (am *Machine) decryptDataFromParticipant(data []byte) (decryptedData []byte, err error) {
+	// ecies.Decrypt slices the ciphertext without checking its length and
+	// panics on truncated input: a malformed deal must be an error, not a crash.
+	defer func() {
+		if r := recover(); r != nil {
+			decryptedData, err = nil, fmt.Errorf("failed to decrypt data: malformed ciphertext (%v)", r)
+		}
+	}()
+
+	decryptedData, err = ecies.Decrypt(am.baseSuite, am.secKey, data, am.baseSuite.Hash)
 	if err != nil {
 		return nil, fmt.Errorf("failed to decrypt data: %w", err)
 	}
